@@ -687,6 +687,10 @@ class PrecipitateBase(GenericModel):
             else:
                 beta = nucfuncs.betaMulti(self.therm, xComp, T, Rcrit, self.matrixParameters, precParams, self.removeCache, searchDir=self._precBetaTemp[p])
             
+            #If the equilibrium calculation for the impingement rate failed and there is no earlier result, keep the last valid values for this phase
+            if np.isnan(beta):
+                continue
+
             # If impingement is 0, then skip rest of calculations (no nucleation rate)
             if beta == 0:
                 continue
